@@ -17,6 +17,7 @@ ENGINES = {
     "C08": "engines.c08",
     "C16": "engines.c16",
     "C19": "engines.c19",
+    "C20": "engines.c20",
     "C13": "engines.c13",
 }
 
